@@ -60,6 +60,17 @@ which checks report it.
   `math.log10`-style code and the format spec; an `epsilon` given as an array breaks the first log line) - *missed*: R20.5 bounded
   the precision but did not look at the argument's kind.  R20.5 now requires every call site to pass a Python float (also through
   a temporary).
+* S64 (fifth wave, C14: the space enumerated by `np.indices(dimensions, dtype=np.uint8)`, which wraps for a dimension wider than 256) was
+  reported by C19 R19.3 - but only because R19.3 reported *every* space not built by `itertools.product`; the correct `np.indices`
+  grid was a false alarm in waiting.  The dense-grid idiom `np.indices(D).reshape(len(D), -1).T + M` now has a normal form (the product of
+  `arange(M[i], M[i] + D[i])`) shared by C19 R19.2 / R19.3 and C14 R14.2 / the column-range domain: the correct grid is silent everywhere
+  (benign variant b52), a narrow explicit offset dtype is reported specifically by C19 R19.3 and C14 R14.3, a grid one short by R19.2 /
+  R19.3 (m149), and any other way of listing the vectors ends in ANALYSIS-ERROR instead of a VIOLATION.
+* Sixth wave: the seed for C20 (`self.gamma = self.config.gamma`, a Python float instead of `jnp.array(..)`: the max-diff threshold
+  `eps * (1 - gamma) / gamma` then raises ZeroDivisionError for the accepted gamma = 0, where the array version yields inf) first ended in
+  ANALYSIS-ERROR only (R20.6 lost one of its array-creation anchors).  R20.14 now asks, for every divisor of the threshold term whose interval
+  under the validator's constraints contains 0, that the attribute holding it is assigned from an array constructor (Python number:
+  VIOLATION; unrecognised: undecided).
 * Two **genuine defects** surfaced while generalising rules for this wave, both on the unchanged tree: D7 (stored policy of the
   value-iteration family is not restored; known finding, section 10.4) and D8 (RVI's gain starts at 0 instead of the reference
   state's initial value; my own R4.2 had encoded the defect as the expected shape - it was reworded, R4.5 added, and the defect
